@@ -62,12 +62,14 @@ func NetConn(ctx context.Context, c *Conn, msgType MessageType) net.Conn {
 		if !nc.writeMu.tryLock() {
 			// If the lock cannot be acquired, then there is an
 			// active write goroutine and so we should cancel the context.
+			verifPoint(nc.c, "netconn.writeTimer.active")
 			nc.writeCancel()
 			return
 		}
 		defer nc.writeMu.unlock()
 
 		// Prevents future writes from writing until the deadline is reset.
+		verifPoint(nc.c, "netconn.writeTimer.idle")
 		atomic.StoreInt64(&nc.writeExpired, 1)
 	})
 	if !nc.writeTimer.Stop() {
@@ -78,12 +80,14 @@ func NetConn(ctx context.Context, c *Conn, msgType MessageType) net.Conn {
 		if !nc.readMu.tryLock() {
 			// If the lock cannot be acquired, then there is an
 			// active read goroutine and so we should cancel the context.
+			verifPoint(nc.c, "netconn.readTimer.active")
 			nc.readCancel()
 			return
 		}
 		defer nc.readMu.unlock()
 
 		// Prevents future reads from reading until the deadline is reset.
+		verifPoint(nc.c, "netconn.readTimer.idle")
 		atomic.StoreInt64(&nc.readExpired, 1)
 	})
 	if !nc.readTimer.Stop() {
